@@ -64,14 +64,18 @@ class Parameter:
 
     @classmethod
     def from_dict(self, components: Any, data: Any, json_path: str) -> Self:
-        pos = ParameterPosition(safe_dict_lookup(data, 'in', str, json_path))
+        try:
+            pos = ParameterPosition(safe_dict_lookup(data, 'in', str, json_path))
+            style = ParameterStyle(safe_dict_lookup(data, 'style', str, json_path, ParameterStyle.SIMPLE.value))
+        except ValueError as e:
+            raise OpenApiException(f"{e} at {json_path}")
         schema = safe_dict_lookup(data, 'schema', dict, json_path)
         schema['components'] = components
         return Parameter(
             name=safe_dict_lookup(data, 'name', str, json_path),
             position=pos,
             required=safe_dict_lookup(data, "required", bool, json_path, pos == ParameterPosition.PATH),
-            style=ParameterStyle(safe_dict_lookup(data, 'style', str, json_path, ParameterStyle.SIMPLE.value)),
+            style=style,
             explode=safe_dict_lookup(data, 'explode', bool, json_path, False),
             schema=schema
         )
@@ -130,8 +134,12 @@ class Response:
             if isinstance(schema, dict):
                 schema['components'] = components
 
+        try:
+            int_code = None if code == 'default' else int(code)
+        except ValueError:
+            raise OpenApiException(f"Response code '{code}' not supported at {json_path}")
         return Response(
-            code=None if code == 'default' else int(code),
+            code=int_code,
             schema=schema,
         )
 
